@@ -42,6 +42,7 @@ def encode_archive(data: bytes):
         name=info.filename; base=mi*1000000
         raw=z.read(name)   # NB: last member with that name
         try:
+            if not name.endswith(('.xml', '.rels')): raise ValueError('binary member')     # e.g. an image whose bytes happen to be XML
             root=etree.fromstring(raw)
             members.append([name, {"xml": enc(root, ns, [base])}])
             for k_,v_ in par_ordinals(root, base).items(): ords[k_]=[name, v_]
